@@ -243,3 +243,32 @@ CONTRACTS[PA + 'PauliList.rotate_by#state'] = dict(
           ('forall_lemma', [('i', '0', 'rows(self.gs)')], 'acq_antisym', ['%s[i]' % _og, _gg, _NN])]),
     ]},
 )
+
+# ------------------------------------------------------------------ C01 / C15: product of two polynomials
+POLY = {'cls': 'PauliPolynomial', 'fields': {'gs': 'int2', 'ps': 'int1', 'cs': 'cplx1'}}
+CONTRACTS[PA + 'PauliPolynomial.__matmul__#poly'] = dict(
+    params=[('self', POLY), ('other', POLY)],
+    requires=['cols(self.gs) == cols(other.gs)', 'len(self.ps) == rows(self.gs)', 'len(self.cs) == rows(self.gs)',
+              'len(other.ps) == rows(other.gs)', 'len(other.cs) == rows(other.gs)', 'bits2(self.gs)', 'bits2(other.gs)'],
+    ensures=['rows(result.gs) == rows(self.gs) * rows(other.gs)', 'len(result.ps) == rows(self.gs) * rows(other.gs)',
+             'len(result.cs) == rows(self.gs) * rows(other.gs)',
+             'forall(a, 0, rows(self.gs), forall(b, 0, rows(other.gs), forall(c, 0, cols(self.gs), '
+             'result.gs[a * rows(other.gs) + b][c] == (self.gs[a][c] + other.gs[b][c]) % 2)))',
+             'forall(a, 0, rows(self.gs), forall(b, 0, rows(other.gs), '
+             'result.ps[a * rows(other.gs) + b] == (self.ps[a] + other.ps[b] + IpowSum(self.gs[a], other.gs[b], cols(self.gs) // 2)) % 4))',
+             'forall(a, 0, rows(self.gs), forall(b, 0, rows(other.gs), result.cs[a * rows(other.gs) + b] == cmul(self.cs[a], other.cs[b])))',
+             'fresh_loc(result.gs)', 'fresh_loc(result.ps)', 'fresh_loc(result.cs)'],
+    modifies=[], returns=POLY,
+)
+
+PMONO = {'cls': 'PauliMonomial', 'fields': {'g': 'int1', 'p': 'int', 'c': 'cplx'}}
+CONTRACTS[PA + 'Pauli.__matmul__#Monomial'] = dict(
+    params=[('self', PAULI), ('other', PMONO)],
+    requires=['len(self.g) == len(other.g)', 'bits1(self.g)', 'bits1(other.g)'],
+    # a plain Pauli times a monomial is the one-term polynomial carrying the monomial's coefficient (times the unit coefficient)
+    ensures=['rows(result.gs) == 1', 'len(result.ps) == 1', 'len(result.cs) == 1',
+             'forall(c, 0, len(self.g), result.gs[0][c] == (self.g[c] + other.g[c]) % 2)',
+             'result.ps[0] == (self.p + other.p + IpowSum(self.g, other.g, len(self.g) // 2)) % 4',
+             'result.cs[0] == cmul(cplx_one(), other.c)'],
+    modifies=[], returns=POLY,
+)
